@@ -20,6 +20,9 @@ def run(tier, seed):
     v.add_report(r1, "valve behaviours")
     reps = [r1]
     reps += more(tier, seed, w, v, lay, tp, mc)
+    rd = vh(["destinations", "--seed", seed], name="c09_dest")
+    v.add_report(rd, "destinations of the definition-driven entry point")
+    reps.append(rd)
     rt, validated, ts = valve_trace(PID, tier, seed, w, v, lay, tp)
     reps.append(rt)
     mc.append(ts)
